@@ -317,7 +317,7 @@ def cached_spec_changes(known):
 
 
 # ------------------------------------------------------------------ one run
-def run_one(d, prog, seed, inject_pause=False, inject_evict=False):
+def run_one(d, prog, seed, inject_pause=False, inject_evict=False, pause_rate=0.06):
     """Seeded schedule with virtual clock on the real engine; oracles after every event."""
     d.reset(seed)
     d.create_workflows(prog['yaml'])
@@ -401,13 +401,17 @@ def run_one(d, prog, seed, inject_pause=False, inject_evict=False):
     paused = False
     resumes = 0
     steps = 0
+    from harness.engine_rerun import repair_scheduler
     while steps < 400:
+        # default scheduler: an in-memory job object expired by a later lock acquisition of its transaction is detached
+        # afterwards; the real scheduler then loses the in-memory run and the store poll runs the job - do what the poll does
+        repair_scheduler(d)
         evs = [e for e in d.enabled() if not d._is_integrity_job(e)]
         if inject_evict and rng.random() < 0.25:
             # parser.clear_caches(): the engine's in-memory definition caches dropped (restart, eviction)
             from mistral.lang import parser as spec_parser
             spec_parser.clear_caches()
-        if inject_pause and rng.random() < 0.06:
+        if inject_pause and rng.random() < pause_rate:
             if not paused:
                 d.operator('pause', wid)
                 paused = True
@@ -568,14 +572,16 @@ def _worker(job):
     if d is None or d.scheduler_type != job.get('sched', 'legacy'):
         d = ed.Driver(job.get('sched', 'legacy'), 0)
         _W['d'] = d
-    r = run_one(d, job['prog'], job['seed'], inject_pause=job.get('pause', False), inject_evict=job.get('evict', False))
-    r['job'] = {'seed': job['seed'], 'sched': job.get('sched', 'legacy'), 'pause': job.get('pause', False), 'evict': job.get('evict', False), 'gi': job.get('gi')}
+    r = run_one(d, job['prog'], job['seed'], inject_pause=job.get('pause', False), inject_evict=job.get('evict', False),
+                pause_rate=job.get('pause_rate', 0.06))
+    r['job'] = {'seed': job['seed'], 'sched': job.get('sched', 'legacy'), 'pause': job.get('pause', False), 'evict': job.get('evict', False),
+                'pause_rate': job.get('pause_rate', 0.06), 'gi': job.get('gi')}
     r['yaml'] = job['prog']['yaml']
     r['oracle'] = {json.dumps(k): v for k, v in job['prog']['oracle'].items()}
     return r
 
 
-def explore(ctx, props, features, n_programs, n_schedules, suite='engine_explore'):
+def explore(ctx, props, features, n_programs, n_schedules, suite='engine_explore', pause_heavy=False):
     import multiprocessing as mp
     rng = random.Random('%s/%s' % (suite, ctx.seed))
     jobs = []
@@ -584,7 +590,8 @@ def explore(ctx, props, features, n_programs, n_schedules, suite='engine_explore
         prog = gen_feature_program(rng, f)
         for k in range(n_schedules):
             jobs.append({'prog': prog, 'seed': ctx.seed * 9973 + gi * 131 + k, 'gi': gi, 'sched': 'default' if k % 3 == 2 else 'legacy',
-                         'pause': (k % 4 == 3), 'evict': (k % 2 == 1)})
+                         'pause': (k % 4 == 3) or (pause_heavy and k > 0), 'evict': (k % 2 == 1),
+                         'pause_rate': [0.06, 0.12, 0.25][k % 3] if pause_heavy else 0.06})
     with mp.get_context('spawn').Pool(min(core.NPROC, max(1, len(jobs) // 4))) as pool:
         results = pool.map(_worker, jobs, chunksize=max(1, len(jobs) // (core.NPROC * 4)))
     by = collections.defaultdict(list)
@@ -603,7 +610,9 @@ def explore(ctx, props, features, n_programs, n_schedules, suite='engine_explore
             m = rs[0]['meta']
             if 'cancel' in (m.get('outs') or []) or m.get('child_out') == 'cancel':
                 continue   # a cancellation races the other branches by nature: outside the order-insensitive fragment
-            sums = collections.Counter(r['summary'] for r in rs if r['summary'] is not None and not r['failures'])
+            # only runs that drained to a final state are compared (a run cut off by the step limit proves nothing)
+            sums = collections.Counter(r['summary'] for r in rs if r['summary'] is not None and not r['failures']
+                                       and r['summary'][0] in ('SUCCESS', 'ERROR', 'CANCELLED'))
             if len(sums) > 1:
                 a, b = list(sums)[:2]
                 ctx.fail('schedule-dependent-result:%s' % rs[0]['meta']['feature'],
@@ -625,7 +634,8 @@ def replay(obj):
     job = r.get('job') or (r.get('jobs') or [{}])[0]
     d = ed.Driver(job.get('sched', 'legacy'), 0)
     prog = {'yaml': r['yaml'], 'oracle': {tuple(json.loads(k)): tuple(v) for k, v in r.get('oracle', {}).items()}, 'meta': r['meta']}
-    res = run_one(d, prog, job.get('seed', 0), inject_pause=job.get('pause', False), inject_evict=job.get('evict', False))
+    res = run_one(d, prog, job.get('seed', 0), inject_pause=job.get('pause', False), inject_evict=job.get('evict', False),
+                  pause_rate=job.get('pause_rate', 0.06))
     print(r['yaml'])
     print('summary', res['summary'])
     for f in res['failures']:
